@@ -477,7 +477,8 @@ def run_world(case, bodies, hashes, kinds, table):
         detail = f'{what} order={perm} {when}: {where} set={bodies} got={got} expected={want if want is not None else "an error"}'
         if want is None:
             ok = got[0] == 'raise'
-            out.append((f'{what}: {when}: constant not (completely) registered yet: ' + ('raises' if ok else 'EXPANDED'),
+            why = 'constant not (completely) registered yet' if when == 'partial registry' else 'constant naming a hash outside the set'
+            out.append((f'{what}: {when}: {why}: ' + ('raises' if ok else 'EXPANDED'),
                         None if ok else 'unknown hash expanded without error', detail, False))
         else:
             ok = got == ('ok', want)
